@@ -74,6 +74,25 @@ Section Memo.
     rewrite posts_key, construct_key. reflexivity.
   Qed.
 
+  (* ==, cmp and the Hash feed of built keys do not depend on the memo state (hashed at birth, never hashed,
+     hashed later, cloned) nor on the construction path: they are those of the logical keys *)
+  Definition built (b : build) (os : list postop) : mkey := fold_left (post H) os (construct H b).
+
+  Lemma built_key b os : m_key (built b os) = logical_key b.
+  Proof. unfold built. rewrite posts_key. apply construct_key. Qed.
+
+  Lemma built_observations b1 b2 os1 os2 :
+    key_cmp (m_key (built b1 os1)) (m_key (built b2 os2)) = key_cmp (logical_key b1) (logical_key b2)
+    /\ key_eq (m_key (built b1 os1)) (m_key (built b2 os2)) = key_eq (logical_key b1) (logical_key b2)
+    /\ hash_feed (m_key (built b1 os1)) = hash_feed (logical_key b1).
+  Proof. rewrite !built_key. auto. Qed.
+
+  Lemma twins_observations b1 b1' b2 b2' os1 os1' os2 os2' :
+    logical_key b1 = logical_key b1' -> logical_key b2 = logical_key b2' ->
+    key_cmp (m_key (built b1 os1)) (m_key (built b2 os2)) = key_cmp (m_key (built b1' os1')) (m_key (built b2' os2'))
+    /\ key_eq (m_key (built b1 os1)) (m_key (built b2 os2)) = key_eq (m_key (built b1' os1')) (m_key (built b2' os2')).
+  Proof. intros E1 E2. rewrite !built_key, E1, E2. auto. Qed.
+
   Lemma get_hash_equal_keys b1 b2 :
     key_eq (logical_key b1) (logical_key b2) = true ->
     fst (get_hash H (construct H b1)) = fst (get_hash H (construct H b2)).
